@@ -65,6 +65,12 @@ func runC18(p *core.Program, r *core.Report) {
 	// R14: "identical types": a field type given as a go/types type is rendered by the type-literal printer, whatever kind
 	// it is (C11.R4)
 	chainRules(p, r, "R14", "C11", []string{"C11.R4"}, "ID renders go/types and reflect types through the type-literal printer only")
+	// R15: "identical tags": the tag is rendered through snippet.Block, which renders whatever text it holds - a renderer
+	// skips a part only when IsNil, and IsNil is a plain emptiness test (C09.R7)
+	chainRules(p, r, "R15", "C09", []string{"C09.R7"}, "a snippet is skipped only when it holds nothing")
+	// R16: "generates for a valid origin": the package of every type reached from a loaded package is in the universe -
+	// Context.Doc looks the field's package up there (C13.R3)
+	chainRules(p, r, "R16", "C13", []string{"C13.R3"}, "the imports of every registered package are followed")
 	// R6: "foreign types correctly imported" - every package the type printer registered is
 	// imported under the very name the rendered field types use (C03.R2's printer rule)
 	r.Floor("R6", 2)
